@@ -672,7 +672,8 @@ impl<R: RefCounter, PR: PathRefCounter, H: Header> Memory<R, PR, H> {
           lock_meta: opts.lock_meta(),
         };
 
-        if this.lock_meta {
+        // in the plain layout the header lives outside the mapping: there is nothing to lock in it
+        if this.lock_meta && unify {
           this.mlock(header_ptr_offset, mem::size_of::<H>())?;
         }
 
